@@ -67,6 +67,10 @@ def cases(rng, tier):
     # a working directory that holds files named like the bundled resources
     for n in rng.sample([v for v in names if v.startswith("sandvine")], 5):
         yield {"name": n, "unpack": rng.random() < 0.5, "doc": n, "cwd_shadow": True}
+    # the application edited, in place, what an earlier load of the same bundled dataset returned (`x %= 12`, `y[i] = nan`):
+    # the table a later load returns is the documented one, not the edited one
+    for n in rng.sample([v for v in names if v.startswith("sandvine")], 8):
+        yield {"name": n, "unpack": rng.random() < 0.5, "doc": n, "scribble_first": rng.random() < 0.7}
     # after the module that holds the loader machinery was reloaded (autoreload in a notebook), bundled and remote
     for n in rng.sample(names, 6):
         yield {"name": n, "unpack": False, "doc": n, "after_reload": True}
@@ -151,6 +155,15 @@ def _run_impl(c):
         os.environ["TRAFFIC_WEAVER_DATA"] = spelled(home, c.get("home_spelling"))
         seen["urls"].clear()
     try:
+        if c.get("scribble_first") is not None:
+            try:
+                r0 = load_dataset(c["name"], unpack_dataset_columns=c["scribble_first"])
+                for a_ in (r0 if isinstance(r0, tuple) else (r0,)):
+                    if isinstance(a_, np.ndarray) and a_.flags.writeable and a_.size:
+                        a_[...] = -a_ - 1.0
+                        a_.flat[0] = np.nan
+            except Exception:  # noqa: the first load is only the history
+                pass
         try:
             r = load_dataset(c["name"], unpack_dataset_columns=c["unpack"])
         except Exception as e:  # noqa
